@@ -39,12 +39,12 @@ func vStr(s string) Val {
 	}
 	return Val{K: "str", B: []byte(s)}
 }
-func vInt(i int) Val           { return Val{K: "int", I: int64(i)} }
-func vIntK(k string, i int64) Val { return Val{K: k, I: i} }
+func vInt(i int) Val                { return Val{K: "int", I: int64(i)} }
+func vIntK(k string, i int64) Val   { return Val{K: k, I: i} }
 func vUintK(k string, u uint64) Val { return Val{K: k, U: u} }
-func vBool(b bool) Val         { return Val{K: "bool", Bo: b} }
-func vF64(f float64) Val       { return Val{K: "f64", F: fmtFloatPayload(f)} }
-func vF32(f float32) Val       { return Val{K: "f32", F: fmtFloatPayload(float64(f))} }
+func vBool(b bool) Val              { return Val{K: "bool", Bo: b} }
+func vF64(f float64) Val            { return Val{K: "f64", F: fmtFloatPayload(f)} }
+func vF32(f float32) Val            { return Val{K: "f32", F: fmtFloatPayload(float64(f))} }
 func vStrs(xs ...string) Val {
 	v := Val{K: "strs"}
 	for _, x := range xs {
@@ -139,11 +139,11 @@ type ZS struct {
 	Count int
 }
 
-func (s ZS) Hello(n string) string                 { return "hello " + n }
-func (s *ZS) PHello() string                       { return "phello " + s.Name }
-func (s ZS) Var(a ...int) int                      { return len(a) }
-func (s ZS) Val(v *pongo2.Value) *pongo2.Value     { return v }
-func (s ZS) Greeting() string                      { return "greet:" + s.Name }
+func (s ZS) Hello(n string) string             { return "hello " + n }
+func (s *ZS) PHello() string                   { return "phello " + s.Name }
+func (s ZS) Var(a ...int) int                  { return len(a) }
+func (s ZS) Val(v *pongo2.Value) *pongo2.Value { return v }
+func (s ZS) Greeting() string                  { return "greet:" + s.Name }
 func (s ZS) WithErr(fail bool) (string, error) {
 	if fail {
 		return "", errors.New("WithErr failed")
